@@ -77,6 +77,7 @@ type env struct {
 	o       chain.GenesisOpts
 	run     *chainx.Runner
 	feeAddr sdk.Address
+	ctxmon  *chainx.CtxMonitor
 }
 
 func boot() *env {
@@ -96,7 +97,7 @@ func boot() *env {
 	g := chain.BuildGenesis(o)
 	n := chain.NewNode(g, chainID, o.GenesisTime, dbm.NewMemDB(), dbm.NewMemDB(), dbm.NewMemDB(), false)
 	n.InitChain()
-	e := &env{w: w, wAct: wAct, o: o, run: &chainx.Runner{N: n}}
+	e := &env{w: w, wAct: wAct, o: o, run: &chainx.Runner{N: n}, ctxmon: chainx.NewCtxMonitor()}
 	e.feeAddr = n.App.VerifAccountKeeper().GetModuleAddress(auth.FeeCollectorName)
 	return e
 }
@@ -208,8 +209,9 @@ func (a *actor) emit(point string, desc string, code string, before map[string]s
 	if changed {
 		diff = strings.Join(chainx.DiffKeys(before, after, 3), ",")
 	}
-	fmt.Printf("act %s %s %s => code=%s changed=%d %s diff=%s cache=%s store=%s gpre=%s gpost=%s\n", a.kind, point, desc, code, b01(changed), marks, diff,
-		chainx.AppCacheDump(a.e.run.N), chainx.AppStoreDump(a.e.run.N), a.gpre, upgradeGlobals())
+	cc, cf := a.e.ctxmon.Dump(a.e.run.N)
+	fmt.Printf("act %s %s %s => code=%s changed=%d %s diff=%s cache=%s store=%s gpre=%s gpost=%s ctxc=%s ctxf=%s\n", a.kind, point, desc, code, b01(changed), marks, diff,
+		chainx.AppCacheDump(a.e.run.N), chainx.AppStoreDump(a.e.run.N), a.gpre, upgradeGlobals(), cc, cf)
 	a.nActs++
 }
 
@@ -394,6 +396,11 @@ func (a *actor) act(point string, i int) {
 				if n.Height > 8 && r.Bool() {
 					sh = 5
 				}
+				if n.App.LastBlockHeight()%4 == 1 {
+					// the session that starts at the last committed height: the claim is refused ("session not over") but
+					// its validation asks ctx.PrevCtx for the context's own height
+					sh = n.App.LastBlockHeight()
+				}
 				bz = chain.SignTx(chainID, from, chainx.MsgClaim(from, a.e.w.Apps[r.Intn(2)], sh, int64(5+r.Intn(20)), byte(a.nextEnt())), chain.DefaultFee, a.nextEnt(), "")
 				desc = fmt.Sprintf("claim@%d", sh)
 			} else {
@@ -439,6 +446,18 @@ func genHistory(hseed uint64, blocks int) *chainx.History {
 			b.Txs = append(b.Txs, tx, tx)
 			ks = append(ks, "send-twice", "send-twice+dup")
 			ds = append(ds, "send-twice", "send-twice-dup")
+		}
+		if bi+1 > 4 { // claims of nodes for the last finished session (block execution asks PrevCtx(session start))
+			ns := append(append([]chain.Key{}, w.Vals...), w.Servs...)
+			start := ((int64(bi+1)-1)/4)*4 + 1 - 4
+			for _, nd := range ns {
+				if start >= 1 && r.Chance(1, 4) {
+					ap := w.Apps[r.Intn(len(w.Apps))]
+					b.Txs = append(b.Txs, chain.SignTx(chainID, nd, chainx.MsgClaim(nd, ap, start, 5+int64(r.Intn(10)), byte(r.Intn(3))), chain.DefaultFee, 680000000+int64(bi)*10+int64(len(b.Txs)), ""))
+					ks = append(ks, "claim")
+					ds = append(ds, fmt.Sprintf("claim@%d", start))
+				}
+			}
 		}
 		if bi+1 >= 3 && r.Chance(1, 4) {
 			// application transfer (MsgStake with zero value signed by the current owner) followed, in the same block,
